@@ -22,6 +22,8 @@ structure SimStep where
   enabled : List Task
   choice : Nat
   spawned : List Task
+  done : Nat := 0      -- `Progress` counters when the delivery is chosen
+  total : Nat := 0
 
 inductive SimVerdict where
   | ok | err | circular | panic | outOfFuel
@@ -45,15 +47,15 @@ def simLoop (w : World) (n univ : Nat) : Nat → St → List Nat → List (List 
       | some t =>
         let rest := s.pool.erase t
         match handle { s with pool := rest } (w.result t) with
-        | .fail => (.err, (⟨en, c, []⟩ :: acc).reverse)
-        | .panic => (.panic, (⟨en, c, []⟩ :: acc).reverse)
+        | .fail => (.err, (⟨en, c, [], s.done, s.total⟩ :: acc).reverse)
+        | .panic => (.panic, (⟨en, c, [], s.done, s.total⟩ :: acc).reverse)
         | .cont s' =>
           let fresh := s'.pool.drop rest.length
           -- the order in which one delivery hands several tasks to the pool comes out of a HashSet in
           -- the code: take the observed order when it is a permutation of the model's set
           let hint := orders.headD []
           let s'' := if samePerm hint fresh then { s' with pool := s'.pool.take rest.length ++ hint } else s'
-          simLoop w n univ fuel s'' choices.tail orders.tail (⟨en, c, sortTasks fresh⟩ :: acc)
+          simLoop w n univ fuel s'' choices.tail orders.tail (⟨en, c, sortTasks fresh, s.done, s.total⟩ :: acc)
 
 def simulate (w : World) (n univ : Nat) (inputs : List File) (choices : List Nat) (orders : List (List Task) := []) :
     SimVerdict × List SimStep :=
@@ -89,6 +91,8 @@ structure USimStep where
   enabled : List UTask
   choice : Nat
   spawned : List UTask
+  done : Nat := 0
+  total : Nat := 0
 
 def ssimLoop (w : ScanWorld) (univ : Nat) : Nat → SSt → List Nat → List USimStep → SimVerdict × List USimStep
   | 0, _, _, acc => (.outOfFuel, acc.reverse)
@@ -101,20 +105,20 @@ def ssimLoop (w : ScanWorld) (univ : Nat) : Nat → SSt → List Nat → List US
       | none => (.panic, acc.reverse)
       | some (.scan d) =>
         (match handleScan w { x with scans := x.scans.erase d } d with
-         | none => (.err, (⟨en, c, []⟩ :: acc).reverse)
+         | none => (.err, (⟨en, c, [], x.st.done + x.sdone, x.st.total + x.stotal⟩ :: acc).reverse)
          | some x' =>
            let before := inFlight { x with scans := x.scans.erase d }
            let spawned := (inFlight x').filter (fun t => !before.contains t)
-           ssimLoop w univ fuel x' choices.tail (⟨en, c, spawned⟩ :: acc))
+           ssimLoop w univ fuel x' choices.tail (⟨en, c, spawned, x.st.done + x.sdone, x.st.total + x.stotal⟩ :: acc))
       | some (.pp t) =>
         (match handle { x.st with pool := x.st.pool.erase t } (w.toWorld.result t) with
-         | .fail => (.err, (⟨en, c, []⟩ :: acc).reverse)
-         | .panic => (.panic, (⟨en, c, []⟩ :: acc).reverse)
+         | .fail => (.err, (⟨en, c, [], x.st.done + x.sdone, x.st.total + x.stotal⟩ :: acc).reverse)
+         | .panic => (.panic, (⟨en, c, [], x.st.done + x.sdone, x.st.total + x.stotal⟩ :: acc).reverse)
          | .cont s' =>
            let x' := { x with st := s' }
            let before := inFlight { x with st := { x.st with pool := x.st.pool.erase t } }
            let spawned := (inFlight x').filter (fun u => !before.contains u)
-           ssimLoop w univ fuel x' choices.tail (⟨en, c, spawned⟩ :: acc))
+           ssimLoop w univ fuel x' choices.tail (⟨en, c, spawned, x.st.done + x.sdone, x.st.total + x.stotal⟩ :: acc))
 
 def ssimulate (w : ScanWorld) (univ ndirs : Nat) (files : List File) (ds : List Dir) (choices : List Nat) :
     SimVerdict × List USimStep :=
